@@ -177,6 +177,16 @@ def worker_main(argv):
         import time as _time
         os.environ['TZ'] = spec['tz']
         _time.tzset()
+    if isinstance(spec, dict) and spec.get('decimal_context'):
+        # a shard may ask to run under a host-modified decimal context (few digits, another rounding mode, the Inexact trap): the ambient
+        # context belongs to the host and nothing evaluated may depend on it
+        import decimal as _decimal
+        c = _decimal.getcontext()
+        c.prec = int(spec['decimal_context'].get('prec', c.prec))
+        if spec['decimal_context'].get('rounding'):
+            c.rounding = getattr(_decimal, spec['decimal_context']['rounding'])
+        if spec['decimal_context'].get('trap_inexact'):
+            c.traps[_decimal.Inexact] = True
     rec = Rec(check_id, spec)
     reach = None
     try:
